@@ -758,7 +758,11 @@ impl Optimizer {
                 let uses_right = predicate_vars.iter().any(|v| right_vars.contains(v));
                 let all_left = predicate_vars.iter().all(|v| left_vars.contains(v));
                 let all_right = predicate_vars.iter().all(|v| right_vars.contains(v));
-                let left_preserved = matches!(
+                // A side containing an operator whose output columns are not reported
+                // (optional match, shortest path, unwind, ...) may bind the variables
+                // as well: the sides cannot be told apart then
+                let sides_known = Self::outputs_known(&join.left) && Self::outputs_known(&join.right);
+                let left_preserved = sides_known && matches!(
                     join.join_type,
                     JoinType::Inner
                         | JoinType::Cross
@@ -766,7 +770,8 @@ impl Optimizer {
                         | JoinType::Semi
                         | JoinType::Anti
                 );
-                let right_preserved = matches!(join.join_type, JoinType::Inner | JoinType::Cross);
+                let right_preserved =
+                    sides_known && matches!(join.join_type, JoinType::Inner | JoinType::Cross);
 
                 if uses_left && !uses_right && all_left && left_preserved {
                     // Push to left side
@@ -817,7 +822,12 @@ impl Optimizer {
             .iter()
             .any(|(e, a)| is_v(e) && a.is_none_or(|a| a == v));
         let shadowed = items.iter().any(|(e, a)| *a == Some(v) && !is_v(e));
-        (handed || star) && !shadowed
+        // An unaliased computed item gets a generated column name that is not
+        // known here and may coincide with `v`
+        let unnamed = items
+            .iter()
+            .any(|(e, a)| a.is_none() && !matches!(e, LogicalExpression::Variable(_)));
+        (handed || star) && !shadowed && !unnamed
     }
 
     /// Does the expression contain a subquery?
@@ -869,6 +879,30 @@ impl Optimizer {
             | LogicalExpression::Id(_)
             | LogicalExpression::Literal(_)
             | LogicalExpression::Parameter(_) => false,
+        }
+    }
+
+    /// Does collect_output_variables know every operator of this tree?
+    fn outputs_known(op: &LogicalOperator) -> bool {
+        match op {
+            LogicalOperator::NodeScan(scan) => {
+                scan.input.as_deref().is_none_or(Self::outputs_known)
+            }
+            LogicalOperator::EdgeScan(_) => true,
+            LogicalOperator::Expand(e) => Self::outputs_known(&e.input),
+            LogicalOperator::Filter(f) => Self::outputs_known(&f.input),
+            // projections and aggregates report their own lists only
+            LogicalOperator::Project(_)
+            | LogicalOperator::Return(_)
+            | LogicalOperator::Aggregate(_) => true,
+            LogicalOperator::Join(j) => {
+                Self::outputs_known(&j.left) && Self::outputs_known(&j.right)
+            }
+            LogicalOperator::Limit(l) => Self::outputs_known(&l.input),
+            LogicalOperator::Skip(s) => Self::outputs_known(&s.input),
+            LogicalOperator::Sort(s) => Self::outputs_known(&s.input),
+            LogicalOperator::Distinct(d) => Self::outputs_known(&d.input),
+            _ => false,
         }
     }
 
@@ -925,8 +959,12 @@ impl Optimizer {
                 }
             }
             LogicalOperator::Aggregate(agg) => {
+                // Only a grouping key that is a bare variable is handed on under its
+                // name; `a.k` as a key does not keep `a` bound above the aggregate
                 for expr in &agg.group_by {
-                    Self::collect_variables(expr, vars);
+                    if let LogicalExpression::Variable(name) = expr {
+                        vars.insert(name.clone());
+                    }
                 }
                 for agg_expr in &agg.aggregates {
                     if let Some(alias) = &agg_expr.alias {
